@@ -3,6 +3,7 @@
    keep a passing store passing, unless the new audit itself collides with a violation entry. *)
 Require Import Base Extracted Criteria Search AuditGraph DepGraph Resolve Update Commands.
 Require Import CriteriaProofs SearchProofs AuditGraphProofs ResolveProofs ResolveTheorems FuelProofs SuggestProofs SuggestHeal EndToEnd.
+Require Import CertifyCollapse CollapseProofs.
 Local Open Scope N_scope.
 
 (* adding a local audit keeps every certification; with no new violation conflict the store still vets *)
@@ -50,4 +51,18 @@ Proof.
   intros Hok Hb Hv Hnv. unfold cmd_certify. apply certify_cleanup_preserves.
   - apply store_ok_add; assumption.
   - apply add_audit_preserves_vetting; assumption.
+Qed.
+
+(* ... and the same when the audit that is recorded is the user's delta FOLDED with an adjacent prior audit
+   (CertifyCollapse.certified_entry): whatever entry certify records, a passing store stays passing *)
+Theorem certify_fold_preserves_vetting inp s target imp_of from_is_git no_collapse new :
+  let e := certified_entry imp_of (st_criteria s) (store_for s target) from_is_git no_collapse new in
+  store_ok inp s -> (forall c, In c (au_crit new) -> c < N.of_nat (ct_len (st_criteria s))) ->
+  vets inp s ->
+  (forall i p, pkg_at inp s i p -> pk_third_party p = true ->
+     violation_conflicts (st_criteria s) (store_for (add_audit_store s target e) (pk_name p)) = []) ->
+  vets inp (cmd_certify target e inp s).
+Proof.
+  intros e Hok Hb Hv Hnv. apply certify_preserves_vetting; try assumption.
+  unfold e. rewrite certify_writes_the_requested_criteria. exact Hb.
 Qed.
